@@ -1,7 +1,7 @@
 (* C05: the compressed-sparse storage as written (a trie over hash maps, ModelCs.v) refines the set of keys. *)
 From ZV.Common Require Import Base Run.
 From Coq Require Import Permutation.
-From ZV.C05 Require Import Model ModelFsa ModelCs Spec ProofsBase ProofsInsert ProofsRemove ProofsRefine ProofsKeys ProofsClone ProofsFsa.
+From ZV.C05 Require Import Model ModelFsa ModelCs Spec SpecNoRemove ProofsBase ProofsInsert ProofsRemove ProofsRefine ProofsKeys ProofsClone ProofsFsa.
 Open Scope N_scope.
 
 (* ---------------------------------------------------------------- HashMap as association list *)
@@ -551,3 +551,17 @@ Proof.
   - repeat constructor; cbn; try lia; discriminate.
   - vm_compute. discriminate.
 Qed.
+
+(* histories with remove calls, as the code treats them *)
+Lemma cs_run_refines_nr : forall ops st S, Forall op_ok ops -> CRel st S -> cs_run st ops = s_run_nr S ops.
+Proof.
+  induction ops as [|op t IH]; intros st S Hok R; cbn [cs_run s_run_nr]; [reflexivity|].
+  inversion Hok as [|? ? Hop Ht]; subst.
+  unfold s_step_nr. destruct (N.eqb_spec (fst op) 1) as [E|E].
+  - destruct op as [code k]. cbn [fst] in E. subst code. cbn [cs_step]. f_equal. apply IH; assumption.
+  - destruct (cs_step_refines st S op (conj Hop E) R) as [Ho R'].
+    destruct (cs_step st op) as [st' o] eqn:E1. destruct (s_step S op) as [S' o'] eqn:E2.
+    cbn [fst snd] in *. subst o'. f_equal. apply IH; assumption.
+Qed.
+Lemma cs_refines_set_noop_remove_proof : forall ops, Forall op_ok ops -> cs_run c_empty ops = s_run_nr [] ops.
+Proof. intros ops H. apply (cs_run_refines_nr ops c_empty [] H crel_empty). Qed.
